@@ -223,12 +223,25 @@ inline void m_plans(const Edge& e, const Parsed& P, unsigned props) {
 		bool same = e.post.planlen == m.len; for (int k = 0; same && k < m.len && k < MAXPLAN; ++k) same = task_eq(e.post.plan[k], m.plan[k]);
 		if (!same) flag(C08, "plan-content-after-call", e, "plan holds %d tasks, expected %d (fired tasks removed, others kept in order)", e.post.planlen, m.len);
 		if (!ghost && e.post.succ != m.succ) flag(C08, "success-report-lifetime", e, "outstanding success reports %x, expected %x", e.post.succ, m.succ);
+		// which task is due in a later cycle depends on all of the plan bookkeeping, not on the success reports alone: a failure report that
+		// lingers (or is lost) and a machine that forgets that a plan exists both change what fires next
+		if (!ghost && e.post.fail != m.fail) flag(C08, "failure-report-lifetime", e, "outstanding failure reports %x, expected %x", e.post.fail, m.fail);
+		if (!ghost && (e.post.exists != 0) != m.exists) flag(C08, "plan-existence", e, "machine believes a plan %s; a task %s added since activation", e.post.exists ? "exists" : "does not exist", m.exists ? "was" : "was never");
 		if (P.processing && !P.structErr && P.nr > 0 && nF) { // the request the guards evaluate is the last fired one unless replaced later
 			bool replaced = false; for (int i = 0; i < e.nev; ++i) if (e.tr[i].kind == EV_CHANGE && (e.tr[i].meth == M_PLAN_OK || e.tr[i].meth == M_PLAN_FAIL)) replaced = true;
 			const TxS& last = F[nF - 1];
 			if (!replaced && !(P.r[0].subj.o == last.o && P.r[0].subj.d == last.d && (P.r[0].subj.set != 0) == (last.set != 0) && P.r[0].subj.tag == last.tag)) flag(C08, "fired-request-not-evaluated", e, "guards evaluate %d>%d/p%d, the task fired last was %d>%d/p%d", P.r[0].subj.o, P.r[0].subj.d, P.r[0].subj.tag, last.o, last.d, last.tag);
 		}
 	}
+	// ---- C07: the request the plan issues carries the fired task's payload, or none if the task has none
+#if VX_PAYLOAD
+	if ((props & (1u << C07)) && cycle && P.processing && !P.structErr && P.nr > 0 && nF) {
+		bool replaced = false; for (int i = 0; i < e.nev; ++i) if (e.tr[i].kind == EV_CHANGE && (e.tr[i].meth == M_PLAN_OK || e.tr[i].meth == M_PLAN_FAIL)) replaced = true;
+		const TxS& last = F[nF - 1]; const TxS& sj = P.r[0].subj;
+		if (!replaced && sj.d == last.d && ((sj.set != 0) != (last.set != 0) || sj.tag != last.tag))
+			flag(C07, "pending-payload", e, "guards evaluate the request of plan task %d>%d with payload p%d/%d, the task carries p%d/%d", last.o, last.d, sj.tag, sj.set, last.tag, last.set);
+	}
+#endif
 	// ---- C11: the history names the task's origin as the source of a request the plan issued
 #if VX_HIST
 	if ((props & (1u << C11)) && cycle && P.processing && !P.structErr && P.nr > 0 && nF) {
@@ -243,6 +256,7 @@ inline void m_plans(const Edge& e, const Parsed& P, unsigned props) {
 		if (cycle && expectOutcome && !outcomeSeen) flag(C09, "warranted-outcome-missing", e, "%s was warranted and not delivered", METH_NAME[expectOutcome]);
 		if (head_defines_outcome(M_PLAN_FAIL) && cycle && activeFailedThisCycle && planNonEmptyAtStep && !(outcomeSeen && expectOutcome == M_PLAN_FAIL)) flag(C09, "failure-not-reported", e, "active state failed with a non-empty plan, planFailed not delivered in this cycle");
 		if (!ghost && (e.post.exists != 0) != m.exists) flag(C09, "plan-existence", e, "machine believes a plan %s; a task %s added since activation (raw flag 0x%02x)", e.post.exists ? "exists" : "does not exist", m.exists ? "was" : "was never", e.post.exists);
+		if (!ghost && e.post.succ != m.succ) flag(C09, "success-report-lifetime", e, "outstanding success reports %x, expected %x (the look-ahead shows the consequence where there is one)", e.post.succ, m.succ);
 		if (!ghost && e.post.fail != m.fail) flag(C09, "failure-report-lifetime", e, "outstanding failure reports %x, expected %x", e.post.fail, m.fail);
 		if (checkEmptyAfterOutcome && e.post.planlen) flag(C09, "plan-not-empty-after-outcome", e, "%d tasks after the outcome callback returned", e.post.planlen);
 	}
@@ -494,7 +508,7 @@ inline void m18(const Edge& e, const Parsed&) {
 
 inline void extra_monitors(const Edge& e, const Parsed& P, unsigned props) {
 #if VX_PLANS
-	if (props & ((1u << C08) | (1u << C09) | (VX_HIST ? (1u << C11) : 0u))) m_plans(e, P, props);
+	if (props & ((1u << C08) | (1u << C09) | (VX_HIST ? (1u << C11) : 0u) | (VX_PAYLOAD ? (1u << C07) : 0u))) m_plans(e, P, props);
 	if (props & (1u << C10)) m10(e, P);
 #endif
 	if (props & (1u << C12)) m12(e, P);
@@ -604,6 +618,15 @@ inline void companion_copy(const Edge& e) {
 	} else
 #endif
 	{ g_alloc.in_lib = 1; new (g_slot[1].bytes) Inst(*inst(0)); g_alloc.in_lib = 0; }
+	{ // at the moment of copying (or moving) the companion shows what the original shows
+		Abs a0, a1; G.cur = inst(0); read_abs(*inst(0), a0); G.cur = inst(1); read_abs(*inst(1), a1); G.cur = inst(0);
+		Edge ec = e; ec.nev = 0;
+		if (a0.prev != a1.prev) { flag(C11, "companion-history", ec, "%s-constructed machine reports previousTransition() %d>%d/p%d, the original %d>%d/p%d", g_comp.move ? "move" : "copy", a1.prev.o == NONE8 ? -1 : a1.prev.o, a1.prev.d == NONE8 ? -1 : a1.prev.d, a1.prev.tag, a0.prev.o == NONE8 ? -1 : a0.prev.o, a0.prev.d == NONE8 ? -1 : a0.prev.d, a0.prev.tag);
+			if (a0.prev.set != a1.prev.set || a0.prev.tag != a1.prev.tag) flag(C07, "companion-payload", ec, "%s-constructed machine exposes payload p%d/%d in previousTransition(), the original p%d/%d", g_comp.move ? "move" : "copy", a1.prev.tag, a1.prev.set, a0.prev.tag, a0.prev.set); }
+		if (a0.req != a1.req) { flag(C02, "companion-request", ec, "%s-constructed machine has outstanding request %d>%d, the original %d>%d", g_comp.move ? "move" : "copy", a1.req.o == NONE8 ? -1 : a1.req.o, a1.req.d == NONE8 ? -1 : a1.req.d, a0.req.o == NONE8 ? -1 : a0.req.o, a0.req.d == NONE8 ? -1 : a0.req.d);
+			if (a0.req.set != a1.req.set || a0.req.tag != a1.req.tag) flag(C07, "companion-payload", ec, "%s-constructed machine exposes payload p%d/%d in its outstanding request, the original p%d/%d", g_comp.move ? "move" : "copy", a1.req.tag, a1.req.set, a0.req.tag, a0.req.set); }
+		if (a0.active != a1.active || a0.mask != a1.mask) flag(C01, "companion-activity", ec, "%s-constructed machine reports active=%d, the original %d", g_comp.move ? "move" : "copy", a1.active == NONE8 ? -1 : a1.active, a0.active == NONE8 ? -1 : a0.active);
+	}
 	G.mode = g_strategy_mode ? DM_STRATEGY : DM_DFS; G.begin(e.ndev, e.dev_pos, e.dev_alt);
 	const OpResult res2 = apply(e.op, 1);
 	++n_companion_runs;
